@@ -420,6 +420,25 @@ Proof.
   intros w p t w' E. unfold select_encode in E. rewrite J in E. exact (T w p t w' E).
 Qed.
 
+(* ---------- forged tokens ---------- *)
+Lemma api_forged_never_decodes
+  (json_loads : option N -> bytes -> res pv)
+  (jws_decode jwe_decode : bytes -> targs -> res (hdr * bytes))
+  (forged : bytes -> targs -> Prop) :
+  (forall tok a, forged tok a -> exists e, jws_decode tok a = Err e) ->
+  (forall tok a, forged tok a -> exists e, jwe_decode tok a = Err e) ->
+  forall tok a d, forged tok a ->
+    exists e, jwt_decode json_loads jws_decode jwe_decode tok a d = Err e /\
+              (if reg_is_jwe (ta_reg a) then jwe_decode tok a else jws_decode tok a) = Err e.
+Proof.
+  intros HS HE tok a d F.
+  destruct (reg_is_jwe (ta_reg a)) eqn:R.
+  - destruct (HE tok a F) as [e E]. exists e. split; [|exact E].
+    apply api_transport_error. rewrite R. exact E.
+  - destruct (HS tok a F) as [e E]. exists e. split; [|exact E].
+    apply api_transport_error. rewrite R. exact E.
+Qed.
+
 (* ---------- non-vacuity: a concrete transport + JSON codec meeting both
    contracts on which encode succeeds ---------- *)
 Definition toy_hdr : hdr := [(asc "typ", PStr (asc "JWT")); (asc "alg", PStr (asc "none"))].
@@ -502,3 +521,8 @@ Lemma jwe_header_kept_instance :
     [(asc "typ", PStr (asc "JWT")); (asc "alg", PStr (asc "dir")); (asc "enc", PStr (asc "A128GCM")); (asc "zip", PStr (asc "DEF"))] /\
   reg_is_jwe (ta_reg (mkta 1 None (Some (true, 1%N)))) = true.
 Proof. vm_compute. split; reflexivity. Qed.
+
+Lemma forged_instance :
+  jwt_decode (fun _ => toy_loads) (fun t _ => toy_tdec t) (fun t _ => toy_tdec t)
+             (asc "e30.e30.AA") (mkta 1 None None) None = Err (EJose BadSignatureError).
+Proof. vm_compute. reflexivity. Qed.
